@@ -1,6 +1,8 @@
 (** C03 — parameter and %pattern% evaluation semantics: the chunker and escaping (build-time half; run-time evaluation is exercised
     by the probe check).  [E] is any environment whose delimiter is the percent sign (Tie/EnvTie.v proves it for the regenerated one). *)
-From GV Require Import Base.Str Base.Gerr Model.Env Model.Token Proofs.TokenProofs.
+From GV Require Import Base.Str Base.Gerr Model.Env Model.Token Proofs.TokenProofs Runtime.RT Proofs.RTProofs.
+From Coq Require Import List.
+Import ListNotations.
 
 (** the chunks are a partition of the pattern, in order *)
 Theorem C03_chunks_partition :
@@ -90,3 +92,47 @@ Theorem C03_literal_context_irrelevant :
 Proof. exact (@chunks_app_literal). Qed.
 Print Assumptions C03_literal_context_irrelevant.
 
+(** ---- run-time evaluation (Runtime/RT.v; Proofs/RTProofs.v) ---- *)
+
+(** a single-chunk pattern is the value of its token, with its type *)
+Theorem C03_single_chunk_keeps_type : forall (f : nat) (st : rt) (t : rtok), eval_pattern (S f) st [t] = eval_tok f st t.
+Proof. exact eval_pattern_single. Qed.
+Print Assumptions C03_single_chunk_keeps_type.
+
+(** a multi-chunk pattern is the concatenation of the documented string casts of its chunks, evaluated left to right ... *)
+Theorem C03_multi_chunk_concatenates : forall f st toks st' xs,
+  Datatypes.length toks <> 1 -> toks_ok f st toks st' xs -> eval_pattern (S f) st toks = (st', ROk (VStr (concat xs))).
+Proof. exact multi_chunk_ok. Qed.
+Print Assumptions C03_multi_chunk_concatenates.
+
+(** ... the first chunk that fails (evaluation error or unsupported cast) is the error of the whole pattern: no later chunk can
+    hide it and the result is never a string with a placeholder in it *)
+Theorem C03_multi_chunk_first_error : forall f st toks st' e,
+  Datatypes.length toks <> 1 -> toks_fail f st toks st' e -> eval_pattern (S f) st toks = (st', RErr e).
+Proof. exact multi_chunk_fail. Qed.
+Print Assumptions C03_multi_chunk_first_error.
+
+Theorem C03_multi_chunk_is_string : forall f st toks st' v,
+  Datatypes.length toks <> 1 -> eval_pattern (S f) st toks = (st', ROk v) -> exists x : str, v = VStr x.
+Proof. exact multi_chunk_is_string. Qed.
+Print Assumptions C03_multi_chunk_is_string.
+
+(** the documented string casts *)
+Theorem C03_casts : forall v : value,
+  cast_to_string v = match v with
+                     | VNil => ROk (s "nil") | VBool b => ROk (if b then s "true" else s "false") | VNum _ t => ROk t | VStr x => ROk x
+                     | _ => RErr (s "is not supported") end.
+Proof. exact cast_to_string_table. Qed.
+Print Assumptions C03_casts.
+
+(** a parameter is evaluated once: a successful GetParam caches the value and every later GetParam returns it unchanged; an
+    error is not cached *)
+Theorem C03_param_cached : forall f st id st' v,
+  get_param f st id = (st', ROk v) -> lookup id (rt_pcache st') = Some v /\ forall f', get_param (S f') st' id = (st', ROk v).
+Proof. intros f st id st' v H. split; [exact (get_param_cached f st id st' v H) | exact (get_param_again f st id st' v H)]. Qed.
+Print Assumptions C03_param_cached.
+
+Theorem C03_param_error_not_cached : forall f st id st' e,
+  get_param f st id = (st', RErr e) -> lookup id (rt_pcache st') = lookup id (rt_pcache st).
+Proof. exact get_param_err_not_cached. Qed.
+Print Assumptions C03_param_error_not_cached.
